@@ -15,7 +15,8 @@ W = [2.0, -0.5, 1.0, 3.0, 0.25]
 
 OPS = {'lin': {'eqs': ["d/dt * x = -k*x"], 'vars': {'x': 'output(0.5)', 'k': 2.0}},
        't1': {'eqs': ["v' = -v + u"], 'vars': {'v': 'output(0.1)', 'u': 'input(0.7)'}},
-       'e1': {'eqs': ["eo = ge*ei^2"], 'vars': {'eo': 'output(0.0)', 'ei': 'input(0.0)', 'ge': 0.5}}}
+       'e1': {'eqs': ["eo = ge*ei^2"], 'vars': {'eo': 'output(0.0)', 'ei': 'input(0.0)', 'ge': 0.5}},
+       'e2': {'eqs': ["eo = ei*(1 - ep)"], 'vars': {'eo': 'output(0.0)', 'ei': 'input(0.0)', 'ep': 'input(0.0)'}}}
 
 
 def net(n_lt=0, n_s=0, n_t=0, edges=(), etpl=False):
@@ -29,7 +30,7 @@ def net(n_lt=0, n_s=0, n_t=0, edges=(), etpl=False):
             tpls[f'N{name}'] = [[o, ov[o]] for o in ops]
             nodes[name] = f'N{name}'
             i += 1
-    return {'ops': OPS, 'node_tpls': tpls, 'edge_tpls': {'E1': [['e1', {}]]} if etpl else {}, 'share': True,
+    return {'ops': OPS, 'node_tpls': tpls, 'edge_tpls': {'E1': [['e1', {}]], 'E2': [['e2', {}]]} if etpl else {}, 'share': True,
             'circuit': {'name': 'net', 'nodes': nodes, 'edges': [list(e) for e in edges]}}
 
 
@@ -99,6 +100,44 @@ def cases(tier, seed):
         add(net(n_lt=2, edges=edges_of(pat, etpl_on=list(range(len(pat))), etpl_vals=True), etpl=True), 'edge_tpl_values', 0.1)
     for pat in list(patterns(lt3, lt3, 3))[10::7]:
         add(net(n_lt=3, edges=edges_of(pat, etpl_on=list(range(len(pat))), etpl_vals=True), etpl=True), 'edge_tpl_values3', 0.1)
+    # delays realised as chains (spread / dde_approx) between merged nodes, edges listed in and against node order
+    for order in itertools.permutations([('p0', 'p1'), ('p1', 'p0'), ('p1', 'p2'), ('p2', 'p0')], 2):
+        for ds, approx in (((0.5, 0.35355339), 0), ((0.5, None), 3), ((1.0, 0.5), 0)):
+            e = []
+            for i, (s_, t_) in enumerate(order):
+                a = {'weight': W[i], 'delay': ds[0]}
+                if ds[1]:
+                    a['spread'] = ds[1]
+                e.append([f'{s_}/lin/x', f'{t_}/t1/u', None, a])
+            c = {'spec': net(n_lt=3, edges=e), 'tag': 'chain_delay', 'seed': seed, 'delayed': True, 'chain': True}
+            if approx:
+                c['dde_approx'] = approx
+            out.append(c)
+    # ... and groups whose sources cover every member of the merged vector exactly once, in every listing order
+    for nlt in (2, 3):
+        P = [f'p{i}' for i in range(nlt)]
+        ring = [(P[i], P[(i + 1) % nlt]) for i in range(nlt)]
+        for order in itertools.permutations(ring):
+            for ds, approx in (((0.5, 0.35355339), 0), ((0.5, None), 3)):
+                e = []
+                for i, (s_, t_) in enumerate(order):
+                    a = {'weight': W[i], 'delay': ds[0]}
+                    if ds[1]:
+                        a['spread'] = ds[1]
+                    e.append([f'{s_}/lin/x', f'{t_}/t1/u', None, a])
+                c = {'spec': net(n_lt=nlt, edges=e), 'tag': 'chain_delay_cover', 'seed': seed, 'delayed': True, 'chain': True}
+                if approx:
+                    c['dde_approx'] = approx
+                out.append(c)
+    # edge templates with a second input that is wired to a named variable of any member of the merged group
+    for s_, t_ in itertools.permutations(lt3, 2):
+        for named in lt3:
+            e = [[f'{s_}/lin/x', f'{t_}/t1/u', 'E2', {'weight': 1.5, 'E2/e2/ei': 'source', 'E2/e2/ep': f'{named}/lin/x'}]]
+            add(net(n_lt=3, edges=e, etpl=True), 'edge_tpl_named_input', 0.1)
+    for named1, named2 in itertools.product(lt3, lt3):
+        e = [['p0/lin/x', 'p1/t1/u', 'E2', {'weight': 1.5, 'E2/e2/ei': 'source', 'E2/e2/ep': f'{named1}/lin/x'}],
+             ['p1/lin/x', 'p2/t1/u', 'E2', {'weight': -0.5, 'E2/e2/ei': 'source', 'E2/e2/ep': f'{named2}/lin/x'}]]
+        add(net(n_lt=3, edges=e, etpl=True), 'edge_tpl_named_input2', 0.1)
     # groups of >= 10 edges: the sparseness rule switches to the indexed path by itself (default threshold 0.1)
     for nt in (10, 11, 12):
         G = [f'g{i}' for i in range(nt)]
@@ -155,6 +194,21 @@ def run_case(case):
     def viol(kind, **kw):
         res['viol'] = dict(kind=kind, sig=dict(sig, kind=kind), **kw)
         res['ok'] = False
+        return res
+    if case.get('chain'):
+        # both settings against the explicitly written chain of first-order stages (C11's reference)
+        from . import C11
+        for vec in (False, True):
+            pool.fresh_state()
+            r = C11.run_case({'spec': spec, 'vectorize': vec, 'tag': case['tag'], 'solver': 'euler',
+                              'dde_approx': case.get('dde_approx', 0)})
+            res['evals'] += r.get('evals', 0)
+            if not r.get('ok'):
+                res['viol'] = r['viol']
+                res['ok'] = False
+                return res
+        res['outcome'] = 'chain'
+        res['ok'] = True
         return res
     cfg_extra = {}
     if 'matrix_sparseness' in case:
